@@ -89,4 +89,11 @@ PROPS = {
         "assumptions": COMMON_KANI + ["once_cell::sync::OnceCell replaced (cfg(kani) only) by once_cell's own unsync cell behind the same API (Kani cannot compile the std implementation): single-threaded claim"],
         "outside": ["thousands of values (bound: 3)", "concurrent pushes through a shared &Unimock (the cell library is trusted)", "recursive drop of very long chains in push_value_mut (observation in DESIGN section 6)"],
     },
+    "C06": {
+        "bounds": {"quick": "pattern family G6 (17 members quick / 22 thorough, listed in harness_ext/src/c06.rs with their argument types): for every member, ALL argument values (integers full range, strings from a 3-4 literal pool, slices of length <= 3), diagnostics off and on",
+                   "thorough": "adds 5 more members (5 arguments, enum struct variants, nested option/slice, newtype string, ne-only)"},
+        "assumptions": COMMON_KANI + ["the reference is an independently written Rust match / == / != over the same arguments (printed by tools/gen_c06.py)",
+                                      "the report list of MismatchReporter is created with reserved capacity under cfg(kani) (same contents)"],
+        "outside": ["patterns outside family G6 (the macro runs inside rustc: programs are covered per instantiation)", "3 or more top-level alternatives do not compile at all in this version (observed, not a soundness issue)"],
+    },
 }
